@@ -9,14 +9,14 @@ RULES = {
     "C02": [("sa.rules.b6", "r_C02ab"), ("sa.rules.b3", "r_C02cd"), ("sa.rules.b3", "r_C08_C34"), ("sa.rules.c08", "r_C08bc"), ("sa.rules.c01", "r_C01ef")],
     "C03": [("sa.rules.b1", "r_C03a"), ("sa.rules.b6", "r_C03bc"), ("sa.rules.b3", "r_C03de_C11a_C17bc"), ("sa.rules.c03", "r_C03fgh")],
     "C04": [("sa.rules.b2", "r_C04"), ("sa.rules.c04", "r_C04a"), ("sa.rules.c01", "r_C01ef")],
-    "C05": [("sa.rules.b3", "r_C05_C10")],
+    "C05": [("sa.rules.b3", "r_C05_C10"), ("sa.rules.c05", "r_C05cde")],
     "C06": [("sa.rules.b7", "r_origin")],
-    "C07": [("sa.rules.b3", "r_C07"), ("sa.rules.b6", "r_C03bc"), ("sa.rules.c03", "r_C03fgh")],
+    "C07": [("sa.rules.b3", "r_C07"), ("sa.rules.b6", "r_C03bc"), ("sa.rules.c03", "r_C03fgh"), ("sa.rules.c05", "r_C07c")],
     "C08": [("sa.rules.b3", "r_C08_C34"), ("sa.rules.b3", "r_C02cd"), ("sa.rules.c08", "r_C08bc")],
     "C09": [("sa.rules.b3", "r_C09")],
     "C10": [("sa.rules.b3", "r_C05_C10")],
     "C11": [("sa.rules.b3", "r_C03de_C11a_C17bc"), ("sa.rules.c11", "r_C11b")],
-    "C12": [("sa.rules.b1", "r_C12a"), ("sa.rules.c12", "r_C12b")],
+    "C12": [("sa.rules.b1", "r_C12a"), ("sa.rules.c12", "r_C12b"), ("sa.rules.c05", "r_C12c")],
     "C13": [("sa.rules.b3", "r_C13")],
     "C14": [("sa.rules.b4", "r_ledger"), ("sa.rules.b1", "r_C14c")],
     "C15": [("sa.rules.b4", "r_ledger")],
